@@ -5,17 +5,19 @@
    for the binary64 / binary32 dictionaries that are executed): the generated terms and the model perform the same
    dictionary operations in the same order.
 
-   In the generated terms the member leastSquares_ is an abstract object (type argument Ls) and every method called on it
-   a function argument (F_setDataSize, F_getJ_set = `J(i, j) = v` through the reference returned by getJ(), F_getY_set,
-   F_estimateUsingSVD, F_setPreconditionner, F_setEstimateSize, F_new = the default-constructed member).  Three
-   instantiations are used here:
-     1. Ls = (nat -> nat -> T) * (nat -> T), the coefficients of J and Y as functions of the indexes: what the row-filling
-        loop WRITES, independently of the solver (lemmas tie_rows_..: row r of J is p2p_row of the r-th triple, Y(r) is p2p_y,
-        nothing else is touched);
-     2. Ls = unit: what is RETURNED for a solver answer x (lemmas tie_scatter_..: p2p_scatter);
-     3. Ls = option ls_state, the state of LsModel.v with coefficient writes (o_setJ / o_setY below: a write outside the
-        buffers is undefined behaviour in C++, None here): the whole call is p2p_find_corr / p2p_find_aligned
-        (lemmas tie_estimate_..), from any solver state that is [ready] (LsHistoryProofs.v) for the estimate size.
+   In the generated terms the member leastSquares_ is an abstract object (type argument Ls) and the methods called on it
+   are the fields — bound by NAME — of the argument M : LsMethods T Ls (SrcP2pLib.v: F_setDataSize, F_getJ_set = `J(i, j) = v`
+   through the reference returned by getJ(), F_getY_set, F_estimateUsingSVD, F_setPreconditionner, F_setEstimateSize,
+   F_new = the default-constructed member).  Three instantiations are used here:
+     1. f_methods x: Ls = (nat -> nat -> T) * (nat -> T), the coefficients of J and Y as functions of the indexes: what the
+        row-filling loop WRITES, independently of the solver (lemmas tie_rows_..: row r of J is p2p_row of the r-th triple,
+        Y(r) is p2p_y, nothing else is touched);
+     2. u_methods x: Ls = unit: what is RETURNED for a solver answer x (lemmas tie_scatter_..: p2p_scatter);
+     3. o_methods: Ls = option ls_state, the state of LsModel.v with coefficient writes (o_setJ / o_setY below: a write
+        outside the buffers is undefined behaviour in C++, None here) and the model's setDataSize / setEstimateSize /
+        setPreconditionner / estimateUsingSVD: the whole call is p2p_find_corr / p2p_find_aligned (lemmas tie_estimate_..),
+        from any solver state that is [ready] (LsHistoryProofs.v) for the estimate size; constructor = p2p_new,
+        setPreconditioner = p2p_set_preconditioner.
    Reading a point set or the correspondence vector past its end is undefined behaviour in C++; the model refuses such
    inputs (triples_of_corr / triples_aligned = None), so the lemmas are stated for inputs the model accepts.
 
@@ -106,6 +108,9 @@ Definition f_setJ (s : fJY) (i j : nat) (v : T) : fJY :=
 Definition f_setY (s : fJY) (i : nat) (v : T) : fJY := (fst s, fun a => if Nat.eqb a i then v else snd s a).
 Definition f_setDataSize (s : fJY) (n : nat) : fJY * bool := (s, false).
 Definition f_estimate (x : list T) (s : fJY) : fJY * list T := (s, x).
+(* (the constructor and setPreconditioner are not called by estimate_: the other fields play no role here) *)
+Definition f_methods (x : list T) : LsMethods T fJY :=
+  mkLsMethods (fun _ _ => nzero N, fun _ => nzero N) (fun s _ => s) f_setDataSize f_setJ f_setY (f_estimate x) (fun s _ => s).
 
 (* a loop body that, at index i, writes exactly the first k coefficients of row i of J and Y(i), and nothing else *)
 Definition writes_row (k : nat) (row : nat -> nat -> T) (y : nat -> T) (f : fJY -> nat -> fJY) : Prop :=
@@ -144,7 +149,7 @@ Definition rows_written (d ps : nat) (S Tg Nr : nat -> list T) (n : nat) (s0 s :
   (forall r, (n <= r)%nat -> (forall c, fst s r c = fst s0 r c) /\ snd s r = snd s0 r).
 
 Ltac rows_tac d ps S Tg Nr :=
-  cbv zeta; cbn [fst snd f_setDataSize f_estimate];
+  cbv zeta; cbn [fst snd f_setDataSize f_estimate f_methods F_setDataSize F_getJ_set F_getY_set F_estimateUsingSVD];
   apply (fold_writes_rows (p2p_k d) (fun r c => vget N (p2p_row N d (S r) (Nr r)) c) (fun r => p2p_y N ps (S r) (Tg r) (Nr r)));
   intros s i; unfold f_setJ, f_setY, csrc, ctgt; cbn [fst snd];
   split; [|split; [|split]];
@@ -159,42 +164,42 @@ Variables (src tgt nrm : list (list T)) (corr : list (nat * nat)) (x : list T) (
 
 Lemma tie_rows_corr_V2 :
   rows_written 2 2 (csrc src corr) (ctgt tgt corr) (ctgt nrm corr) (length corr) s0
-    (fst (src_estimate_corr_V2 N fJY (f_estimate x) f_setJ f_setY f_setDataSize src tgt nrm corr s0)).
+    (fst (src_estimate_corr_V2 N fJY (f_methods x) src tgt nrm corr s0)).
 Proof. unfold src_estimate_corr_V2, rows_written. rows_tac 2%nat 2%nat (csrc src corr) (ctgt tgt corr) (ctgt nrm corr). Qed.
 
 Lemma tie_rows_corr_H2 :
   rows_written 2 3 (csrc src corr) (ctgt tgt corr) (ctgt nrm corr) (length corr) s0
-    (fst (src_estimate_corr_H2 N fJY (f_estimate x) f_setJ f_setY f_setDataSize src tgt nrm corr s0)).
+    (fst (src_estimate_corr_H2 N fJY (f_methods x) src tgt nrm corr s0)).
 Proof. unfold src_estimate_corr_H2, rows_written. rows_tac 2%nat 3%nat (csrc src corr) (ctgt tgt corr) (ctgt nrm corr). Qed.
 
 Lemma tie_rows_corr_V3 :
   rows_written 3 3 (csrc src corr) (ctgt tgt corr) (ctgt nrm corr) (length corr) s0
-    (fst (src_estimate_corr_V3 N fJY (f_estimate x) f_setJ f_setY f_setDataSize src tgt nrm corr s0)).
+    (fst (src_estimate_corr_V3 N fJY (f_methods x) src tgt nrm corr s0)).
 Proof. unfold src_estimate_corr_V3, rows_written. rows_tac 3%nat 3%nat (csrc src corr) (ctgt tgt corr) (ctgt nrm corr). Qed.
 
 Lemma tie_rows_corr_H3 :
   rows_written 3 4 (csrc src corr) (ctgt tgt corr) (ctgt nrm corr) (length corr) s0
-    (fst (src_estimate_corr_H3 N fJY (f_estimate x) f_setJ f_setY f_setDataSize src tgt nrm corr s0)).
+    (fst (src_estimate_corr_H3 N fJY (f_methods x) src tgt nrm corr s0)).
 Proof. unfold src_estimate_corr_H3, rows_written. rows_tac 3%nat 4%nat (csrc src corr) (ctgt tgt corr) (ctgt nrm corr). Qed.
 
 Lemma tie_rows_aligned_V2 :
   rows_written 2 2 (fun r => nth r src []) (fun r => nth r tgt []) (fun r => nth r nrm []) (length src) s0
-    (fst (src_estimate_aligned_V2 N fJY (f_estimate x) f_setJ f_setY f_setDataSize src tgt nrm s0)).
+    (fst (src_estimate_aligned_V2 N fJY (f_methods x) src tgt nrm s0)).
 Proof. unfold src_estimate_aligned_V2, rows_written. rows_tac 2%nat 2%nat (fun r => nth r src []) (fun r => nth r tgt []) (fun r => nth r nrm []). Qed.
 
 Lemma tie_rows_aligned_H2 :
   rows_written 2 3 (fun r => nth r src []) (fun r => nth r tgt []) (fun r => nth r nrm []) (length src) s0
-    (fst (src_estimate_aligned_H2 N fJY (f_estimate x) f_setJ f_setY f_setDataSize src tgt nrm s0)).
+    (fst (src_estimate_aligned_H2 N fJY (f_methods x) src tgt nrm s0)).
 Proof. unfold src_estimate_aligned_H2, rows_written. rows_tac 2%nat 3%nat (fun r => nth r src []) (fun r => nth r tgt []) (fun r => nth r nrm []). Qed.
 
 Lemma tie_rows_aligned_V3 :
   rows_written 3 3 (fun r => nth r src []) (fun r => nth r tgt []) (fun r => nth r nrm []) (length src) s0
-    (fst (src_estimate_aligned_V3 N fJY (f_estimate x) f_setJ f_setY f_setDataSize src tgt nrm s0)).
+    (fst (src_estimate_aligned_V3 N fJY (f_methods x) src tgt nrm s0)).
 Proof. unfold src_estimate_aligned_V3, rows_written. rows_tac 3%nat 3%nat (fun r => nth r src []) (fun r => nth r tgt []) (fun r => nth r nrm []). Qed.
 
 Lemma tie_rows_aligned_H3 :
   rows_written 3 4 (fun r => nth r src []) (fun r => nth r tgt []) (fun r => nth r nrm []) (length src) s0
-    (fst (src_estimate_aligned_H3 N fJY (f_estimate x) f_setJ f_setY f_setDataSize src tgt nrm s0)).
+    (fst (src_estimate_aligned_H3 N fJY (f_methods x) src tgt nrm s0)).
 Proof. unfold src_estimate_aligned_H3, rows_written. rows_tac 3%nat 4%nat (fun r => nth r src []) (fun r => nth r tgt []) (fun r => nth r nrm []). Qed.
 
 (* ---- 2. what is returned: for ANY solver answer x the matrix is p2p_scatter x (the solver object plays no role: Ls = unit) ---- *)
@@ -202,19 +207,20 @@ Definition u_setDataSize (_ : unit) (_ : nat) : unit * bool := (tt, false).
 Definition u_setJ (_ : unit) (_ _ : nat) (_ : T) : unit := tt.
 Definition u_setY (_ : unit) (_ : nat) (_ : T) : unit := tt.
 Definition u_estimate (_ : unit) : unit * list T := (tt, x).
+Definition u_methods : LsMethods T unit := mkLsMethods tt (fun _ _ => tt) u_setDataSize u_setJ u_setY u_estimate (fun _ _ => tt).
 
 Lemma tie_scatter_2d :
-  snd (src_estimate_corr_V2 N unit u_estimate u_setJ u_setY u_setDataSize src tgt nrm corr tt) = p2p_scatter N 2 x /\
-  snd (src_estimate_corr_H2 N unit u_estimate u_setJ u_setY u_setDataSize src tgt nrm corr tt) = p2p_scatter N 2 x /\
-  snd (src_estimate_aligned_V2 N unit u_estimate u_setJ u_setY u_setDataSize src tgt nrm tt) = p2p_scatter N 2 x /\
-  snd (src_estimate_aligned_H2 N unit u_estimate u_setJ u_setY u_setDataSize src tgt nrm tt) = p2p_scatter N 2 x.
+  snd (src_estimate_corr_V2 N unit u_methods src tgt nrm corr tt) = p2p_scatter N 2 x /\
+  snd (src_estimate_corr_H2 N unit u_methods src tgt nrm corr tt) = p2p_scatter N 2 x /\
+  snd (src_estimate_aligned_V2 N unit u_methods src tgt nrm tt) = p2p_scatter N 2 x /\
+  snd (src_estimate_aligned_H2 N unit u_methods src tgt nrm tt) = p2p_scatter N 2 x.
 Proof. repeat split; reflexivity. Qed.
 
 Lemma tie_scatter_3d :
-  snd (src_estimate_corr_V3 N unit u_estimate u_setJ u_setY u_setDataSize src tgt nrm corr tt) = p2p_scatter N 3 x /\
-  snd (src_estimate_corr_H3 N unit u_estimate u_setJ u_setY u_setDataSize src tgt nrm corr tt) = p2p_scatter N 3 x /\
-  snd (src_estimate_aligned_V3 N unit u_estimate u_setJ u_setY u_setDataSize src tgt nrm tt) = p2p_scatter N 3 x /\
-  snd (src_estimate_aligned_H3 N unit u_estimate u_setJ u_setY u_setDataSize src tgt nrm tt) = p2p_scatter N 3 x.
+  snd (src_estimate_corr_V3 N unit u_methods src tgt nrm corr tt) = p2p_scatter N 3 x /\
+  snd (src_estimate_corr_H3 N unit u_methods src tgt nrm corr tt) = p2p_scatter N 3 x /\
+  snd (src_estimate_aligned_V3 N unit u_methods src tgt nrm tt) = p2p_scatter N 3 x /\
+  snd (src_estimate_aligned_H3 N unit u_methods src tgt nrm tt) = p2p_scatter N 3 x.
 Proof. repeat split; reflexivity. Qed.
 
 End Rows.
@@ -240,11 +246,11 @@ Ltac rows_aligned_tac H lem :=
 
 Theorem source_tie_rows_2d (src tgt nrm : list (list T)) (corr : list (nat * nat)) (tr : list triple) (x : list T) (s0 : fJY) :
   (triples_of_corr src tgt nrm corr = Some tr ->
-     rows_of_triples 2 2 tr s0 (fst (src_estimate_corr_V2 N fJY (f_estimate x) f_setJ f_setY f_setDataSize src tgt nrm corr s0)) /\
-     rows_of_triples 2 3 tr s0 (fst (src_estimate_corr_H2 N fJY (f_estimate x) f_setJ f_setY f_setDataSize src tgt nrm corr s0))) /\
+     rows_of_triples 2 2 tr s0 (fst (src_estimate_corr_V2 N fJY (f_methods x) src tgt nrm corr s0)) /\
+     rows_of_triples 2 3 tr s0 (fst (src_estimate_corr_H2 N fJY (f_methods x) src tgt nrm corr s0))) /\
   (triples_aligned src tgt nrm = Some tr ->
-     rows_of_triples 2 2 tr s0 (fst (src_estimate_aligned_V2 N fJY (f_estimate x) f_setJ f_setY f_setDataSize src tgt nrm s0)) /\
-     rows_of_triples 2 3 tr s0 (fst (src_estimate_aligned_H2 N fJY (f_estimate x) f_setJ f_setY f_setDataSize src tgt nrm s0))).
+     rows_of_triples 2 2 tr s0 (fst (src_estimate_aligned_V2 N fJY (f_methods x) src tgt nrm s0)) /\
+     rows_of_triples 2 3 tr s0 (fst (src_estimate_aligned_H2 N fJY (f_methods x) src tgt nrm s0))).
 Proof.
   split; intros H; split.
   - rows_corr_tac H tie_rows_corr_V2.
@@ -255,11 +261,11 @@ Qed.
 
 Theorem source_tie_rows_3d (src tgt nrm : list (list T)) (corr : list (nat * nat)) (tr : list triple) (x : list T) (s0 : fJY) :
   (triples_of_corr src tgt nrm corr = Some tr ->
-     rows_of_triples 3 3 tr s0 (fst (src_estimate_corr_V3 N fJY (f_estimate x) f_setJ f_setY f_setDataSize src tgt nrm corr s0)) /\
-     rows_of_triples 3 4 tr s0 (fst (src_estimate_corr_H3 N fJY (f_estimate x) f_setJ f_setY f_setDataSize src tgt nrm corr s0))) /\
+     rows_of_triples 3 3 tr s0 (fst (src_estimate_corr_V3 N fJY (f_methods x) src tgt nrm corr s0)) /\
+     rows_of_triples 3 4 tr s0 (fst (src_estimate_corr_H3 N fJY (f_methods x) src tgt nrm corr s0))) /\
   (triples_aligned src tgt nrm = Some tr ->
-     rows_of_triples 3 3 tr s0 (fst (src_estimate_aligned_V3 N fJY (f_estimate x) f_setJ f_setY f_setDataSize src tgt nrm s0)) /\
-     rows_of_triples 3 4 tr s0 (fst (src_estimate_aligned_H3 N fJY (f_estimate x) f_setJ f_setY f_setDataSize src tgt nrm s0))).
+     rows_of_triples 3 3 tr s0 (fst (src_estimate_aligned_V3 N fJY (f_methods x) src tgt nrm s0)) /\
+     rows_of_triples 3 4 tr s0 (fst (src_estimate_aligned_H3 N fJY (f_methods x) src tgt nrm s0))).
 Proof.
   split; intros H; split.
   - rows_corr_tac H tie_rows_corr_V3.
@@ -270,36 +276,35 @@ Qed.
 
 (* the scatter, all eight estimate_ bodies at once *)
 Theorem source_tie_scatter (src tgt nrm : list (list T)) (corr : list (nat * nat)) (x : list T) :
-  (snd (src_estimate_corr_V2 N unit (u_estimate x) u_setJ u_setY u_setDataSize src tgt nrm corr tt) = p2p_scatter N 2 x /\
-   snd (src_estimate_corr_H2 N unit (u_estimate x) u_setJ u_setY u_setDataSize src tgt nrm corr tt) = p2p_scatter N 2 x /\
-   snd (src_estimate_aligned_V2 N unit (u_estimate x) u_setJ u_setY u_setDataSize src tgt nrm tt) = p2p_scatter N 2 x /\
-   snd (src_estimate_aligned_H2 N unit (u_estimate x) u_setJ u_setY u_setDataSize src tgt nrm tt) = p2p_scatter N 2 x) /\
-  (snd (src_estimate_corr_V3 N unit (u_estimate x) u_setJ u_setY u_setDataSize src tgt nrm corr tt) = p2p_scatter N 3 x /\
-   snd (src_estimate_corr_H3 N unit (u_estimate x) u_setJ u_setY u_setDataSize src tgt nrm corr tt) = p2p_scatter N 3 x /\
-   snd (src_estimate_aligned_V3 N unit (u_estimate x) u_setJ u_setY u_setDataSize src tgt nrm tt) = p2p_scatter N 3 x /\
-   snd (src_estimate_aligned_H3 N unit (u_estimate x) u_setJ u_setY u_setDataSize src tgt nrm tt) = p2p_scatter N 3 x).
+  (snd (src_estimate_corr_V2 N unit (u_methods x) src tgt nrm corr tt) = p2p_scatter N 2 x /\
+   snd (src_estimate_corr_H2 N unit (u_methods x) src tgt nrm corr tt) = p2p_scatter N 2 x /\
+   snd (src_estimate_aligned_V2 N unit (u_methods x) src tgt nrm tt) = p2p_scatter N 2 x /\
+   snd (src_estimate_aligned_H2 N unit (u_methods x) src tgt nrm tt) = p2p_scatter N 2 x) /\
+  (snd (src_estimate_corr_V3 N unit (u_methods x) src tgt nrm corr tt) = p2p_scatter N 3 x /\
+   snd (src_estimate_corr_H3 N unit (u_methods x) src tgt nrm corr tt) = p2p_scatter N 3 x /\
+   snd (src_estimate_aligned_V3 N unit (u_methods x) src tgt nrm tt) = p2p_scatter N 3 x /\
+   snd (src_estimate_aligned_H3 N unit (u_methods x) src tgt nrm tt) = p2p_scatter N 3 x).
 Proof. split; [exact (tie_scatter_2d src tgt nrm corr x)|exact (tie_scatter_3d src tgt nrm corr x)]. Qed.
 
 (* the public find overloads are estimate_; the PreconditionedPointSet overloads are estimate_ on the sets returned by get()
    (free variables sourcePoints_get / targetPoints_get of the generated terms) — whatever the solver object is *)
-Theorem source_tie_find (Ls : Type) (Fe : Ls -> Ls * list T) (FJ : Ls -> nat -> nat -> T -> Ls) (FY : Ls -> nat -> T -> Ls)
-        (Fd : Ls -> nat -> Ls * bool) (src tgt nrm : list (list T)) (corr : list (nat * nat)) (ls : Ls) :
-  (src_find_corr_V2 N Ls Fe FJ FY Fd src tgt nrm corr ls = src_estimate_corr_V2 N Ls Fe FJ FY Fd src tgt nrm corr ls /\
-   src_find_aligned_V2 N Ls Fe FJ FY Fd src tgt nrm ls = src_estimate_aligned_V2 N Ls Fe FJ FY Fd src tgt nrm ls /\
-   src_find_pre_corr_V2 N Ls Fe FJ FY Fd nrm corr ls src tgt = src_estimate_corr_V2 N Ls Fe FJ FY Fd src tgt nrm corr ls /\
-   src_find_pre_aligned_V2 N Ls Fe FJ FY Fd nrm ls src tgt = src_estimate_aligned_V2 N Ls Fe FJ FY Fd src tgt nrm ls) /\
-  (src_find_corr_H2 N Ls Fe FJ FY Fd src tgt nrm corr ls = src_estimate_corr_H2 N Ls Fe FJ FY Fd src tgt nrm corr ls /\
-   src_find_aligned_H2 N Ls Fe FJ FY Fd src tgt nrm ls = src_estimate_aligned_H2 N Ls Fe FJ FY Fd src tgt nrm ls /\
-   src_find_pre_corr_H2 N Ls Fe FJ FY Fd nrm corr ls src tgt = src_estimate_corr_H2 N Ls Fe FJ FY Fd src tgt nrm corr ls /\
-   src_find_pre_aligned_H2 N Ls Fe FJ FY Fd nrm ls src tgt = src_estimate_aligned_H2 N Ls Fe FJ FY Fd src tgt nrm ls) /\
-  (src_find_corr_V3 N Ls Fe FJ FY Fd src tgt nrm corr ls = src_estimate_corr_V3 N Ls Fe FJ FY Fd src tgt nrm corr ls /\
-   src_find_aligned_V3 N Ls Fe FJ FY Fd src tgt nrm ls = src_estimate_aligned_V3 N Ls Fe FJ FY Fd src tgt nrm ls /\
-   src_find_pre_corr_V3 N Ls Fe FJ FY Fd nrm corr ls src tgt = src_estimate_corr_V3 N Ls Fe FJ FY Fd src tgt nrm corr ls /\
-   src_find_pre_aligned_V3 N Ls Fe FJ FY Fd nrm ls src tgt = src_estimate_aligned_V3 N Ls Fe FJ FY Fd src tgt nrm ls) /\
-  (src_find_corr_H3 N Ls Fe FJ FY Fd src tgt nrm corr ls = src_estimate_corr_H3 N Ls Fe FJ FY Fd src tgt nrm corr ls /\
-   src_find_aligned_H3 N Ls Fe FJ FY Fd src tgt nrm ls = src_estimate_aligned_H3 N Ls Fe FJ FY Fd src tgt nrm ls /\
-   src_find_pre_corr_H3 N Ls Fe FJ FY Fd nrm corr ls src tgt = src_estimate_corr_H3 N Ls Fe FJ FY Fd src tgt nrm corr ls /\
-   src_find_pre_aligned_H3 N Ls Fe FJ FY Fd nrm ls src tgt = src_estimate_aligned_H3 N Ls Fe FJ FY Fd src tgt nrm ls).
+Theorem source_tie_find (Ls : Type) (M : LsMethods T Ls) (src tgt nrm : list (list T)) (corr : list (nat * nat)) (ls : Ls) :
+  (src_find_corr_V2 N Ls M src tgt nrm corr ls = src_estimate_corr_V2 N Ls M src tgt nrm corr ls /\
+   src_find_aligned_V2 N Ls M src tgt nrm ls = src_estimate_aligned_V2 N Ls M src tgt nrm ls /\
+   src_find_pre_corr_V2 N Ls M nrm corr ls src tgt = src_estimate_corr_V2 N Ls M src tgt nrm corr ls /\
+   src_find_pre_aligned_V2 N Ls M nrm ls src tgt = src_estimate_aligned_V2 N Ls M src tgt nrm ls) /\
+  (src_find_corr_H2 N Ls M src tgt nrm corr ls = src_estimate_corr_H2 N Ls M src tgt nrm corr ls /\
+   src_find_aligned_H2 N Ls M src tgt nrm ls = src_estimate_aligned_H2 N Ls M src tgt nrm ls /\
+   src_find_pre_corr_H2 N Ls M nrm corr ls src tgt = src_estimate_corr_H2 N Ls M src tgt nrm corr ls /\
+   src_find_pre_aligned_H2 N Ls M nrm ls src tgt = src_estimate_aligned_H2 N Ls M src tgt nrm ls) /\
+  (src_find_corr_V3 N Ls M src tgt nrm corr ls = src_estimate_corr_V3 N Ls M src tgt nrm corr ls /\
+   src_find_aligned_V3 N Ls M src tgt nrm ls = src_estimate_aligned_V3 N Ls M src tgt nrm ls /\
+   src_find_pre_corr_V3 N Ls M nrm corr ls src tgt = src_estimate_corr_V3 N Ls M src tgt nrm corr ls /\
+   src_find_pre_aligned_V3 N Ls M nrm ls src tgt = src_estimate_aligned_V3 N Ls M src tgt nrm ls) /\
+  (src_find_corr_H3 N Ls M src tgt nrm corr ls = src_estimate_corr_H3 N Ls M src tgt nrm corr ls /\
+   src_find_aligned_H3 N Ls M src tgt nrm ls = src_estimate_aligned_H3 N Ls M src tgt nrm ls /\
+   src_find_pre_corr_H3 N Ls M nrm corr ls src tgt = src_estimate_corr_H3 N Ls M src tgt nrm corr ls /\
+   src_find_pre_aligned_H3 N Ls M nrm ls src tgt = src_estimate_aligned_H3 N Ls M src tgt nrm ls).
 Proof. repeat split; reflexivity. Qed.
 
 (* ================================================================================================
@@ -311,22 +316,6 @@ Variable fill : T.
 Variable svd_fixed : bool.
 
 Local Notation zr := (nzero N).
-
-(* constructor and setPreconditioner: total operations of the model *)
-Lemma tie_new :
-  src_new_V2 ls_state ls_new0 (fun s k => ls_set_estimate_size N k s) = p2p_new N 2 /\
-  src_new_H2 ls_state ls_new0 (fun s k => ls_set_estimate_size N k s) = p2p_new N 2 /\
-  src_new_V3 ls_state ls_new0 (fun s k => ls_set_estimate_size N k s) = p2p_new N 3 /\
-  src_new_H3 ls_state ls_new0 (fun s k => ls_set_estimate_size N k s) = p2p_new N 3.
-Proof. repeat split; reflexivity. Qed.
-
-(* the scale is the (0,0) coefficient of the TARGET set's preconditioning matrix *)
-Lemma tie_setPreconditioner (st : ls_state) (M : list (list T)) :
-  src_setPreconditioner_V2 N ls_state (fun s A => ls_set_precond_A N A s) st M = p2p_set_preconditioner N 2 (mget N M 0 0) st /\
-  src_setPreconditioner_H2 N ls_state (fun s A => ls_set_precond_A N A s) st M = p2p_set_preconditioner N 2 (mget N M 0 0) st /\
-  src_setPreconditioner_V3 N ls_state (fun s A => ls_set_precond_A N A s) st M = p2p_set_preconditioner N 3 (mget N M 0 0) st /\
-  src_setPreconditioner_H3 N ls_state (fun s A => ls_set_precond_A N A s) st M = p2p_set_preconditioner N 3 (mget N M 0 0) st.
-Proof. repeat split; reflexivity. Qed.
 
 (* coefficient writes through the references returned by getJ() / getY(): outside the buffers = undefined behaviour = None *)
 Definition with_J (s : ls_state (T:=T)) (J : list (list T)) : ls_state :=
@@ -358,6 +347,27 @@ Definition o_estimate (s : option (ls_state (T:=T))) : option ls_state * list T 
                end
   | None => (None, [])
   end.
+(* the methods of the solver object on the state of LsModel.v *)
+Definition o_methods : LsMethods T (option (ls_state (T:=T))) :=
+  mkLsMethods (Some ls_new0) (fun s k => option_map (ls_set_estimate_size N k) s) o_setDataSize o_setJ o_setY o_estimate
+              (fun s A => option_map (ls_set_precond_A N A) s).
+
+(* constructor and setPreconditioner: total operations of the model *)
+Lemma tie_new :
+  src_new_V2 (option ls_state) o_methods = Some (p2p_new N 2) /\
+  src_new_H2 (option ls_state) o_methods = Some (p2p_new N 2) /\
+  src_new_V3 (option ls_state) o_methods = Some (p2p_new N 3) /\
+  src_new_H3 (option ls_state) o_methods = Some (p2p_new N 3).
+Proof. repeat split; reflexivity. Qed.
+
+(* the scale is the (0,0) coefficient of the TARGET set's preconditioning matrix *)
+Lemma tie_setPreconditioner (st : ls_state (T:=T)) (P : list (list T)) :
+  src_setPreconditioner_V2 N (option ls_state) o_methods (Some st) P = Some (p2p_set_preconditioner N 2 (mget N P 0 0) st) /\
+  src_setPreconditioner_H2 N (option ls_state) o_methods (Some st) P = Some (p2p_set_preconditioner N 2 (mget N P 0 0) st) /\
+  src_setPreconditioner_V3 N (option ls_state) o_methods (Some st) P = Some (p2p_set_preconditioner N 3 (mget N P 0 0) st) /\
+  src_setPreconditioner_H3 N (option ls_state) o_methods (Some st) P = Some (p2p_set_preconditioner N 3 (mget N P 0 0) st).
+Proof. repeat split; reflexivity. Qed.
+
 (* the result of a call: the solver state after it and the returned matrix, or None (undefined) *)
 Definition pack {A : Type} (r : option (ls_state (T:=T)) * A) : option (ls_state * A) :=
   match fst r with Some st => Some (st, snd r) | None => None end.
@@ -493,7 +503,7 @@ Ltac step_tac k Hs Hjs Hys :=
   reflexivity.
 
 Ltac estimate_tac d ps tr st Hready Hlen Hnth :=
-  cbv zeta; cbn [fst snd];
+  cbv zeta; cbn [fst snd o_methods F_setDataSize F_getJ_set F_getY_set F_estimateUsingSVD];
   rewrite Hlen;
   rewrite (load_generic d ps tr st); [ | first [left; reflexivity | right; reflexivity] | exact Hready | ];
   [ unfold p2p_estimate;
@@ -520,7 +530,7 @@ Lemma aligned_nth : triples_aligned src tgt nrm = Some tr ->
 Proof. intros H i Hi. rewrite (triples_aligned_length _ _ _ _ H) in Hi. exact (triples_aligned_nth _ _ _ _ i H Hi). Qed.
 
 Lemma tie_estimate_corr_V2 : triples_of_corr src tgt nrm corr = Some tr -> ready 3 st ->
-  pack (src_estimate_corr_V2 N (option ls_state) o_estimate o_setJ o_setY o_setDataSize src tgt nrm corr (Some st))
+  pack (src_estimate_corr_V2 N (option ls_state) o_methods src tgt nrm corr (Some st))
   = p2p_find_corr N inverse_of svd_of fill svd_fixed 2 2 src tgt nrm corr st.
 Proof.
   intros Htr Hready. unfold p2p_find_corr. rewrite Htr. unfold src_estimate_corr_V2, pack, csrc, ctgt.
@@ -529,7 +539,7 @@ Proof.
 Qed.
 
 Lemma tie_estimate_corr_H2 : triples_of_corr src tgt nrm corr = Some tr -> ready 3 st ->
-  pack (src_estimate_corr_H2 N (option ls_state) o_estimate o_setJ o_setY o_setDataSize src tgt nrm corr (Some st))
+  pack (src_estimate_corr_H2 N (option ls_state) o_methods src tgt nrm corr (Some st))
   = p2p_find_corr N inverse_of svd_of fill svd_fixed 2 3 src tgt nrm corr st.
 Proof.
   intros Htr Hready. unfold p2p_find_corr. rewrite Htr. unfold src_estimate_corr_H2, pack, csrc, ctgt.
@@ -538,7 +548,7 @@ Proof.
 Qed.
 
 Lemma tie_estimate_corr_V3 : triples_of_corr src tgt nrm corr = Some tr -> ready 6 st ->
-  pack (src_estimate_corr_V3 N (option ls_state) o_estimate o_setJ o_setY o_setDataSize src tgt nrm corr (Some st))
+  pack (src_estimate_corr_V3 N (option ls_state) o_methods src tgt nrm corr (Some st))
   = p2p_find_corr N inverse_of svd_of fill svd_fixed 3 3 src tgt nrm corr st.
 Proof.
   intros Htr Hready. unfold p2p_find_corr. rewrite Htr. unfold src_estimate_corr_V3, pack, csrc, ctgt.
@@ -547,7 +557,7 @@ Proof.
 Qed.
 
 Lemma tie_estimate_corr_H3 : triples_of_corr src tgt nrm corr = Some tr -> ready 6 st ->
-  pack (src_estimate_corr_H3 N (option ls_state) o_estimate o_setJ o_setY o_setDataSize src tgt nrm corr (Some st))
+  pack (src_estimate_corr_H3 N (option ls_state) o_methods src tgt nrm corr (Some st))
   = p2p_find_corr N inverse_of svd_of fill svd_fixed 3 4 src tgt nrm corr st.
 Proof.
   intros Htr Hready. unfold p2p_find_corr. rewrite Htr. unfold src_estimate_corr_H3, pack, csrc, ctgt.
@@ -556,7 +566,7 @@ Proof.
 Qed.
 
 Lemma tie_estimate_aligned_V2 : triples_aligned src tgt nrm = Some tr -> ready 3 st ->
-  pack (src_estimate_aligned_V2 N (option ls_state) o_estimate o_setJ o_setY o_setDataSize src tgt nrm (Some st))
+  pack (src_estimate_aligned_V2 N (option ls_state) o_methods src tgt nrm (Some st))
   = p2p_find_aligned N inverse_of svd_of fill svd_fixed 2 2 src tgt nrm st.
 Proof.
   intros Htr Hready. unfold p2p_find_aligned. rewrite Htr. unfold src_estimate_aligned_V2, pack.
@@ -565,7 +575,7 @@ Proof.
 Qed.
 
 Lemma tie_estimate_aligned_H2 : triples_aligned src tgt nrm = Some tr -> ready 3 st ->
-  pack (src_estimate_aligned_H2 N (option ls_state) o_estimate o_setJ o_setY o_setDataSize src tgt nrm (Some st))
+  pack (src_estimate_aligned_H2 N (option ls_state) o_methods src tgt nrm (Some st))
   = p2p_find_aligned N inverse_of svd_of fill svd_fixed 2 3 src tgt nrm st.
 Proof.
   intros Htr Hready. unfold p2p_find_aligned. rewrite Htr. unfold src_estimate_aligned_H2, pack.
@@ -574,7 +584,7 @@ Proof.
 Qed.
 
 Lemma tie_estimate_aligned_V3 : triples_aligned src tgt nrm = Some tr -> ready 6 st ->
-  pack (src_estimate_aligned_V3 N (option ls_state) o_estimate o_setJ o_setY o_setDataSize src tgt nrm (Some st))
+  pack (src_estimate_aligned_V3 N (option ls_state) o_methods src tgt nrm (Some st))
   = p2p_find_aligned N inverse_of svd_of fill svd_fixed 3 3 src tgt nrm st.
 Proof.
   intros Htr Hready. unfold p2p_find_aligned. rewrite Htr. unfold src_estimate_aligned_V3, pack.
@@ -583,7 +593,7 @@ Proof.
 Qed.
 
 Lemma tie_estimate_aligned_H3 : triples_aligned src tgt nrm = Some tr -> ready 6 st ->
-  pack (src_estimate_aligned_H3 N (option ls_state) o_estimate o_setJ o_setY o_setDataSize src tgt nrm (Some st))
+  pack (src_estimate_aligned_H3 N (option ls_state) o_methods src tgt nrm (Some st))
   = p2p_find_aligned N inverse_of svd_of fill svd_fixed 3 4 src tgt nrm st.
 Proof.
   intros Htr Hready. unfold p2p_find_aligned. rewrite Htr. unfold src_estimate_aligned_H3, pack.
@@ -597,25 +607,25 @@ End Calls.
 Theorem source_tie_estimate (src tgt nrm : list (list T)) (corr : list (nat * nat)) (tr : list triple) (st : ls_state (T:=T)) :
   (triples_of_corr src tgt nrm corr = Some tr ->
      (ready 3 st ->
-        pack (src_estimate_corr_V2 N (option ls_state) o_estimate o_setJ o_setY o_setDataSize src tgt nrm corr (Some st))
+        pack (src_estimate_corr_V2 N (option ls_state) o_methods src tgt nrm corr (Some st))
         = p2p_find_corr N inverse_of svd_of fill svd_fixed 2 2 src tgt nrm corr st /\
-        pack (src_estimate_corr_H2 N (option ls_state) o_estimate o_setJ o_setY o_setDataSize src tgt nrm corr (Some st))
+        pack (src_estimate_corr_H2 N (option ls_state) o_methods src tgt nrm corr (Some st))
         = p2p_find_corr N inverse_of svd_of fill svd_fixed 2 3 src tgt nrm corr st) /\
      (ready 6 st ->
-        pack (src_estimate_corr_V3 N (option ls_state) o_estimate o_setJ o_setY o_setDataSize src tgt nrm corr (Some st))
+        pack (src_estimate_corr_V3 N (option ls_state) o_methods src tgt nrm corr (Some st))
         = p2p_find_corr N inverse_of svd_of fill svd_fixed 3 3 src tgt nrm corr st /\
-        pack (src_estimate_corr_H3 N (option ls_state) o_estimate o_setJ o_setY o_setDataSize src tgt nrm corr (Some st))
+        pack (src_estimate_corr_H3 N (option ls_state) o_methods src tgt nrm corr (Some st))
         = p2p_find_corr N inverse_of svd_of fill svd_fixed 3 4 src tgt nrm corr st)) /\
   (triples_aligned src tgt nrm = Some tr ->
      (ready 3 st ->
-        pack (src_estimate_aligned_V2 N (option ls_state) o_estimate o_setJ o_setY o_setDataSize src tgt nrm (Some st))
+        pack (src_estimate_aligned_V2 N (option ls_state) o_methods src tgt nrm (Some st))
         = p2p_find_aligned N inverse_of svd_of fill svd_fixed 2 2 src tgt nrm st /\
-        pack (src_estimate_aligned_H2 N (option ls_state) o_estimate o_setJ o_setY o_setDataSize src tgt nrm (Some st))
+        pack (src_estimate_aligned_H2 N (option ls_state) o_methods src tgt nrm (Some st))
         = p2p_find_aligned N inverse_of svd_of fill svd_fixed 2 3 src tgt nrm st) /\
      (ready 6 st ->
-        pack (src_estimate_aligned_V3 N (option ls_state) o_estimate o_setJ o_setY o_setDataSize src tgt nrm (Some st))
+        pack (src_estimate_aligned_V3 N (option ls_state) o_methods src tgt nrm (Some st))
         = p2p_find_aligned N inverse_of svd_of fill svd_fixed 3 3 src tgt nrm st /\
-        pack (src_estimate_aligned_H3 N (option ls_state) o_estimate o_setJ o_setY o_setDataSize src tgt nrm (Some st))
+        pack (src_estimate_aligned_H3 N (option ls_state) o_methods src tgt nrm (Some st))
         = p2p_find_aligned N inverse_of svd_of fill svd_fixed 3 4 src tgt nrm st)).
 Proof.
   split; intros H; split; intros Hr; split.
